@@ -13,12 +13,24 @@ compared with the boring way (one fused stage, no threads, whole data source):
     ShardedIterable in the thorough tier; states merged with `merge_states`,
     result by `get_result`), and the record-at-a-time driver `update_state` +
     `merge_states` + `get_result`;
+ 1b. source-level strategies over LONG data sources (plain enumeration, E3):
+    the random-access reader refills a shard's range iterator 64 elements at a
+    time (iter_utils._RANDOM_ACCESS_BATCH_SIZE), so sources of 1..4 windows
+    -1/0/+1 element (and 100/130/200) are cut into 1..4 shards - leaf shards
+    longer than a window, ending inside one, in first/middle/last position -
+    through data_source(ds.shard()), make(shard=), the data sources a stage
+    with num_threads=k hands to its workers (the runner's own sharding,
+    iterated without threads), shards of shards (make(shard=) x num_threads),
+    a SequenceDataSource over several sequences, a ShardedIterable, and the
+    record-at-a-time driver (as many states to merge as records); every
+    operator, every aggregate and the slicer meet every such cut;
  2. threaded strategies (E1, every schedule within a preemption bound):
     `num_threads` in 1..3 over a shardable source (k shard iterators, k
     enqueuing workers) and over a non-shardable one (k workers behind one
     locked iterator), fused and chained, with the threads in the first or in a
     later stage (whose workers then share the previous stage's iterator and
-    its aggregate);
+    its aggregate), with fewer and with MORE records than the stage's output
+    queue holds (3 x num_threads; the workers then wait on a full queue);
  3. the interleaved stage runner `orchestrate.run_pipeline_interleaved` in
     process (every stage on its own thread, (Async)IteratorQueues between
     them), every schedule within preemption bound 0 and delay bound 1.
@@ -69,7 +81,8 @@ def _compare(st, strategy, klass, ref, batches, agg, returned, rows, replay,
   if agg != ref.agg:
     d = {'got': agg, 'want': ref.agg}
     if len(repr(d)) > 4000:
-      d = {'got_head': repr(agg)[:600], 'want_head': repr(ref.agg)[:600]}
+      d = {'got_chars': len(repr(agg)), 'want_chars': len(repr(ref.agg)),
+           'got_head': repr(agg)[:300], 'want_head': repr(ref.agg)[:300]}
     problems.append(('agg-result-differs', d))
   if check_returned and returned != ref.returned:
     problems.append(('returned-aggregate-differs',
@@ -399,6 +412,16 @@ def _src_unit(args):
   st = Stats()
   for n in sizes:
     check_sources(st, tuple(ops), agg, n)
+  if sizes[0] == LONG_SIZES['quick'][-1] and not ops and agg is None:
+    st.sample({'part': 'source-level strategies, long data source',
+               'operators': list(ops), 'aggregate': agg, 'n': sizes[0],
+               'read_ahead_window': WINDOW,
+               'leaf_shard_lengths': {k: [len(range(sizes[0])[i::k])
+                                          for i in range(k)]
+                                      for k in range(1, 5)},
+               'strategies': 'shards 1..4 via source/make/mseq-source/'
+                             'iter-source/workers, make+workers %s'
+                             % [list(x) for x in NESTED]})
   return st
 
 
@@ -501,8 +524,28 @@ def thread_configs(tier):
       c(ops=['fi'], agg='bag/a', n=4, source='seq', threads=3),
       c(ops=['ap'], agg='bag', n=3, source='seq', cuts=[1, 2], threads={1: 3}),
   ]
+  # more records than the stage's output queue holds (buffer_size = 3 x
+  # num_threads): the workers meet a full queue and wait for the consumer
+  full_one = [
+      c(ops=[], agg='bag', n=4, source='seq', threads=1),
+      c(ops=[], agg='bag', n=4, source='stream', threads=1),
+      c(ops=['aw'], agg='inplace/a', n=4, source='iter', threads=1),
+      c(ops=['r2'], agg=None, n=5, source='stream', threads=1),
+      c(ops=['ap'], agg='bag', n=4, source='seq', cuts=[1, 2], threads={1: 1}),
+  ]
+  full_more = [
+      c(ops=[], agg='bag', n=7, source='seq', threads=2),
+      c(ops=[], agg='bag', n=7, source='stream', threads=2),
+      c(ops=[], agg='bag', n=10, source='seq', threads=3),
+  ]
+  full = [('1 worker + consumer, more records (4-5) than the output queue '
+           'holds (3 x num_threads), preemption bound 1', 1, full_one),
+          ('2/3 workers + consumer, more records (7/10) than the output queue '
+           'holds, preemption bound 0 (free switches at blocking points)', 0,
+           full_more)]
   if tier == 'quick':
-    return [('1 worker + consumer, preemption bound 2', 2, one_deep),
+    return full + [
+            ('1 worker + consumer, preemption bound 2', 2, one_deep),
             ('1 worker + consumer, preemption bound 1', 1, one),
             ('2 workers + consumer, preemption bound 1', 1,
              two_deep + two_small + two),
@@ -511,7 +554,10 @@ def thread_configs(tier):
   # thorough.  Measured (one process, happens-before cache): 1 worker at bound
   # 3 = 3*10^4 executions for 2 records; 2 workers at bound 2 = 3*10^4 (1
   # record) / 6-9*10^4 (2 records); 3 workers at bound 1 = 1-2*10^4.
-  return [('1 worker + consumer, preemption bound 3', 3, one_deep[1:]),
+  full[1] = (full[1][0], 0, full_more + [
+      c(ops=[], agg='bag', n=10, source='stream', threads=3)])
+  return full + [
+          ('1 worker + consumer, preemption bound 3', 3, one_deep[1:]),
           ('1 worker + consumer, preemption bound 2', 2, one_deep[:1] + one),
           ('2 workers + consumer (1 record, sharded source), preemption bound '
            '2 - the shared-iterator configuration costs 4*10^4 and those with '
